@@ -187,7 +187,105 @@ def intervals_of_registry(prog, rep):
         rep.ob("registry", GET_RULE, False, "not found")
         return None
     rep.fn(GET_RULE)
-    w = OracleWorld(prog)
+
+    class RegistryWorld(OracleWorld):
+        """A registry kept as a sorted static table and binary-searched: the search is decided exactly — the
+        comparator closure is evaluated on every row for every interval of the key, the rows' answers must be
+        Less* Equal? Greater* (else binary search is not defined on the table), and the result is the Equal row."""
+
+        def call(self, m, st, callee, args, term):
+            if callee["path"] == "core::slice::<impl [T]>::binary_search_by":
+                return self.search(m, st, args)
+            return OracleWorld.call(self, m, st, callee, args, term)
+
+        def index_hook(self, st, base, idx):
+            # TABLE[i] with the row index the search returned
+            if isinstance(base, Opq) and base.kind == "static" and isinstance(idx, I):
+                arr = self.__dict__.get("_static_arrays", {}).get(base.data[0])
+                if arr is not None and 0 <= idx.v < len(arr.data):
+                    return arr.data[idx.v]
+            return OracleWorld.index_hook(self, st, base, idx) if hasattr(OracleWorld, "index_hook") else None
+
+        def search(self, m, st, args):
+            from ..models import deref_all
+
+            sl = args[0]
+            path = None
+            if isinstance(sl, Ref) and sl.loc[0] == "static":
+                path = sl.loc[1]
+            else:
+                v = deref_all(m, st, sl)
+                if isinstance(v, Opq) and v.kind == "static":
+                    path = v.data[0]
+            arr = self.static_array(m, st, path) if path else None
+            if arr is None:
+                raise AnalysisError("binary search over a slice that is not a small static table with a straight-line initialiser")
+            rows = list(arr.data)
+            clo = args[1]
+            if isinstance(clo, Ref):
+                clo = m.load(st, clo.loc)
+            if not isinstance(clo, ip.Clo):
+                raise AnalysisError("comparator is %r, not a closure" % (clo,))
+            caps = []
+            for c in clo.captures:
+                cv, depth = c, 0
+                while isinstance(cv, Ref) and cv.loc[0] != "val" and depth < 4:
+                    inner = m.load(st, cv.loc)
+                    cv = Ref(("val", inner)) if not isinstance(inner, Ref) else inner
+                    depth += 1
+                caps.append(cv)
+            body = self.prog.body(clo.defpath)
+            cur = st.facts.get(("rng", "cp"), ((0, 0xFFFFFFFF),))
+            per_row = []
+            for row in rows:
+                sub = ip.State()
+                sub.nuid = 80_000
+                sub.facts = dict(st.facts)
+                fr = ip.Frame(body, sub.fresh())
+                c2 = ip.Clo(clo.defpath, tuple(caps))
+                fr.locals[1] = Ref(("val", c2)) if body.locals[1]["ty"].startswith("&") else c2
+                fr.locals[2] = Ref(("val", row))
+                sub.frames.append(fr)
+                cells = []
+                for o in m.run(sub):
+                    if o.kind != "return" or not (isinstance(o.value, Adt) and o.value.ty == ip.ORDERING):
+                        raise AnalysisError("comparator path ends with %s %r" % (o.kind, o.value))
+                    for lo, hi in o.state.facts.get(("rng", "cp"), cur):
+                        cells.append((lo, hi, o.value.variant - 1))
+                per_row.append(sorted(cells))
+            # elementary intervals of the key
+            pts = set()
+            for lo, hi in cur:
+                pts.add(lo)
+                pts.add(hi + 1)
+            for cells in per_row:
+                for lo, hi, _ in cells:
+                    pts.add(lo)
+                    pts.add(hi + 1)
+            pts = sorted(pts)
+            results = {}
+            for a, b_ in zip(pts, pts[1:]):
+                if not any(lo <= a and b_ - 1 <= hi for lo, hi in cur):
+                    continue
+                seq = []
+                for cells in per_row:
+                    o_ = [o for lo, hi, o in cells if lo <= a and b_ - 1 <= hi]
+                    if len(o_) != 1:
+                        raise AnalysisError("comparator not decided on the key interval %x..%x" % (a, b_ - 1))
+                    seq.append(o_[0])
+                eq = [i for i, o in enumerate(seq) if o == 0]
+                shape = [o for o in seq if o != 0]
+                if len(eq) > 1 or shape != sorted(shape) or (eq and not (all(o == -1 for o in seq[: eq[0]]) and all(o == 1 for o in seq[eq[0] + 1 :]))):
+                    raise AnalysisError("for keys %x..%x the rows answer %s: the table is not sorted for this comparator, binary search is not defined" % (a, b_ - 1, seq))
+                results.setdefault(eq[0] if eq else None, []).append((a, b_ - 1))
+            opts = sorted(results, key=lambda x: (-1 if x is None else x))
+            pick = opts[0] if len(opts) == 1 else st.choose(("registry-row", path), opts)
+            st.facts[("rng", "cp")] = tuple(results[pick])
+            if pick is None:
+                return ip.err(Sym(("ins",), "usize"))
+            return ip.ok(I(pick, "usize"))
+
+    w = RegistryWorld(prog)
     m = ip.Machine(prog, w)
     try:
         outs = m.run(m.start(GET_RULE, [Sym("cp", "u32")]))
